@@ -219,3 +219,169 @@ class PLDocument:
 
     def valid(self, sel: set[str]) -> bool:
         return all(f.eval(sel) for f in self.formulas)
+
+
+# ---- Clafer subset -----------------------------------------------------------------------------------
+_CL_TOKEN = re.compile(r'\s*(<=>|=>|&&|\|\||!|\(|\)|"[^"]*"|[^\s()!&|<=>]+)')
+_CL_PREC = {"<=>": 1, "=>": 2, "xor": 3, "||": 4, "&&": 5}
+_CL_LINE = re.compile(r'^(?:(abstract)\s+)?(?:(xor|or|mux|\d+\.\.(?:\d+|\*))\s+)?("[^"]*"|[^\s:?\[\]]+)'
+                      r'(?:\s*:\s*([A-Za-z_]\w*))?\s*(\?)?\s*$')
+
+
+class ClaferDoc:
+    """Interpreter of the Clafer subset the writer targets: an optional abstract clafer declaring
+    attributes, one abstract root clafer with nested clafers (group keyword before the name, `?`
+    after it, `[attr = value]` lines), top-level `[constraint]` lines and `Instance : Root`."""
+
+    def __init__(self, text: str) -> None:
+        self.declared_attrs: dict[str, str] = {}
+        self.used_attrs: list[tuple[str, str]] = []
+        self.constraints: list[Any] = []
+        self.root: Optional[dict[str, Any]] = None
+        self.instance_of: Optional[str] = None
+        stack: list[tuple[int, dict[str, Any]]] = []
+        in_attr_decl = False
+        for raw in text.split("\n"):
+            if not raw.strip():
+                in_attr_decl = False
+                continue
+            depth = len(raw) - len(raw.lstrip("\t"))
+            body = raw.strip()
+            if depth == 0 and body.startswith("[") and body.endswith("]"):
+                self.constraints.append(self._parse_expr(body[1:-1]))
+                continue
+            if depth == 0 and re.fullmatch(r"abstract\s+AttributedFeature", body):
+                in_attr_decl = True
+                continue
+            if in_attr_decl and depth == 1:
+                m = re.fullmatch(r'("[^"]*"|\S+)\s*->\s*(\w*)', body)
+                if not m:
+                    raise ExportError(f"Clafer: unreadable attribute declaration {body!r}")
+                if not m.group(2):
+                    raise ExportError(f"Clafer: attribute {m.group(1)} declared without a type")
+                self.declared_attrs[m.group(1)] = m.group(2)
+                continue
+            if depth == 0 and re.fullmatch(r'\w+\s*:\s*("[^"]*"|\S+)', body) and self.root is not None:
+                self.instance_of = body.split(":", 1)[1].strip().strip('"')
+                continue
+            if body.startswith("["):
+                m = re.fullmatch(r'\[("[^"]*"|[^\s=\]]+)\s*=\s*(.*)\]', body)
+                if not m or not stack:
+                    raise ExportError(f"Clafer: unreadable attribute value line {body!r}")
+                self.used_attrs.append((m.group(1), m.group(2)))
+                continue
+            m = _CL_LINE.match(body)
+            if not m:
+                raise ExportError(f"Clafer: unreadable clafer line {body!r}")
+            node = {"abstract": bool(m.group(1)), "group": m.group(2), "name": m.group(3).strip('"'),
+                    "raw_name": m.group(3), "super": m.group(4), "optional": bool(m.group(5)), "children": []}
+            while stack and stack[-1][0] >= depth:
+                stack.pop()
+            if not stack:
+                if self.root is not None or not node["abstract"]:
+                    raise ExportError(f"Clafer: unexpected top-level clafer {body!r}")
+                self.root = node
+            else:
+                stack[-1][1]["children"].append(node)
+            stack.append((depth, node))
+        if self.root is None:
+            raise ExportError("Clafer: no root clafer")
+        if self.instance_of != self.root["name"]:
+            raise ExportError(f"Clafer: instance of {self.instance_of!r}, root is {self.root['name']!r}")
+
+    # expressions
+    def _parse_expr(self, text: str) -> Any:
+        toks = _CL_TOKEN.findall(text)
+        if "".join(toks).replace(" ", "") != text.replace(" ", ""):
+            raise ExportError(f"Clafer: cannot tokenise constraint {text!r}")
+        pos = [0]
+
+        def peek() -> Optional[str]:
+            return toks[pos[0]] if pos[0] < len(toks) else None
+
+        def unary() -> Any:
+            t = peek()
+            if t is None:
+                raise ExportError(f"Clafer: unexpected end of constraint {text!r}")
+            pos[0] += 1
+            if t in ("!", "not"):
+                return ("not", unary())
+            if t == "(":
+                e = binary(0)
+                if peek() != ")":
+                    raise ExportError(f"Clafer: missing ')' in {text!r}")
+                pos[0] += 1
+                return e
+            if t in _CL_PREC or t == ")":
+                raise ExportError(f"Clafer: unexpected {t!r} in {text!r}")
+            return ("var", t.strip('"'))
+
+        def binary(minprec: int) -> Any:
+            left = unary()
+            while True:
+                op = peek()
+                if op not in _CL_PREC or _CL_PREC[op] < minprec:
+                    return left
+                pos[0] += 1
+                right = binary(_CL_PREC[op] + (0 if op == "=>" else 1))
+                left = (op, left, right)
+        e = binary(0)
+        if pos[0] != len(toks):
+            raise ExportError(f"Clafer: trailing tokens in constraint {text!r}: {toks[pos[0]:][:3]}")
+        return e
+
+    def _eval(self, t: Any, sel: set[str]) -> bool:
+        k = t[0]
+        if k == "var":
+            return t[1] in sel
+        if k == "not":
+            return not self._eval(t[1], sel)
+        a, b = self._eval(t[1], sel), self._eval(t[2], sel)
+        return {"&&": a and b, "||": a or b, "=>": (not a) or b, "<=>": a == b, "xor": a != b}[k]
+
+    def _vars(self, t: Any) -> set[str]:
+        if t[0] == "var":
+            return {t[1]}
+        return set().union(*[self._vars(x) for x in t[1:]])
+
+    def names(self) -> list[str]:
+        out: list[str] = []
+
+        def walk(n: dict[str, Any]) -> None:
+            out.append(n["name"])
+            for c in n["children"]:
+                walk(c)
+        walk(self.root)  # type: ignore[arg-type]
+        return out
+
+    def constraint_names(self) -> set[str]:
+        return set().union(*[self._vars(c) for c in self.constraints]) if self.constraints else set()
+
+    def valid(self, sel: set[str]) -> bool:
+        assert self.root is not None
+        if self.root["name"] not in sel:
+            return False
+
+        def ok(n: dict[str, Any], on: bool) -> bool:
+            kids = n["children"]
+            k = sum(1 for c in kids if c["name"] in sel)
+            if not on and k:
+                return False
+            if n["group"] and on:
+                g = n["group"]
+                lo, hi = {"xor": (1, 1), "or": (1, len(kids)), "mux": (0, 1)}.get(g, (None, None))
+                if lo is None:
+                    a, b = g.split("..")
+                    lo, hi = int(a), (len(kids) if b == "*" else int(b))
+                if not lo <= k <= hi:
+                    return False
+            for c in kids:
+                c_on = c["name"] in sel
+                if not n["group"] and on and not c["optional"] and not c_on:
+                    return False
+                if not ok(c, c_on):
+                    return False
+            return True
+        if not ok(self.root, True):
+            return False
+        return all(self._eval(c, sel) for c in self.constraints)
